@@ -417,6 +417,27 @@ fn run_one(text: &str) {
                     _ => panic!("unsupported metric pair"),
                 }
             }
+            "budget_equiv" => {
+                // leaving the budget unset with oversampling=o must equal search_k = count * n_trees * o
+                let reader = Reader::<D>::open(&wtxn, index, db).unwrap();
+                let o: usize = kv(&tok, "oversampling").unwrap().parse().unwrap();
+                let count: usize = kv(&tok, "count").unwrap().parse().unwrap();
+                let n_q: usize = kv(&tok, "queries").unwrap_or("16").parse().unwrap();
+                for qi in 0..n_q {
+                    let mut v = vec![0.0f32; dim];
+                    v[0] = qi as f32 * 3.7 + 0.31;
+                    let mut a = reader.nns(count);
+                    a.oversampling(NonZeroUsize::new(o).unwrap());
+                    let ra = a.by_vector(&wtxn, &v).unwrap();
+                    let mut b = reader.nns(count);
+                    b.search_k(NonZeroUsize::new(count * reader.n_trees() * o).unwrap());
+                    let rb = b.by_vector(&wtxn, &v).unwrap();
+                    if ra != rb {
+                        verdict.push(format!("query {qi}: unset budget with oversampling {o} returns {ra:?}, the equivalent explicit budget returns {rb:?}"));
+                        break;
+                    }
+                }
+            }
             "upgrade" => {
                 // pending=a,b : a v0.4 cosine database (old key kinds) is upgraded into a junk-filled one
                 use crate::distance::Cosine;
